@@ -2,6 +2,7 @@
 SPECIFICATION Spec
 CONSTANTS
     Stores <- StoresDef
+    LocalStores <- LocalDef
     AlgOf <- AlgDef
     Contents <- ContentsDef
     Dig <- DigDef
